@@ -375,6 +375,23 @@ def check_measures(ctx, db):
                 any(i.k == 'IfStmt' and norm(i.child('cond').text()) == '(this->repetition.type != RepetitionType::None)' for i in x.ancestors())]
     ctx.check(len(rep_mult(a)) == 1 and len(rep_mult(p)) == 1 and not rep_mult(s) and 'repetition' not in norm(clone.canon(s.body, s)), 'R-DEP', 'measures/repetition-factor', a.loc(),
               'area and perimeter are multiplied by the repetition count; signed_area is not')
+    # the factor multiplies the complete sum: no accumulation into the same variable is reachable after the multiplication
+    for f in (a, p):
+        g = f.cfg
+        for x in rep_mult(f):
+            key = lvalue_key(_strip_casts(x.child('lhs')))
+            accs = [y for y in f.walk() if y.k == 'CompoundAssignOperator' and y.op in ('+=', '-=') and lvalue_key(_strip_casts(y.child('lhs'))) == key]
+            wx = g.where_node(x)
+            late = None
+            for y in accs:
+                wy = g.where_node(y)
+                if wx is None or wy is None:
+                    raise AnalysisBroken('%s: statement not located in the CFG' % f.qn)
+                if g.path_avoiding(wx, lambda b, i, nid, wy=wy: (b, i) == wy, lambda b, i, nid: False):
+                    late = y
+                    break
+            ctx.check(late is None and bool(accs), 'R-ORDER', '%s/factor-after-sum' % f.qn.replace('gdstk::', ''), x.loc(), 'the repetition count multiplies the finished sum (%d accumulation sites, none reachable after the multiplication)' % len(accs),
+                      'a term is still added at %s after the sum was multiplied by the repetition count: that term is counted once instead of once per copy' % (late.loc() if late is not None else '?'))
     t = norm(clone.canon(p.body, p))
     ok = re.search(r'for \(uint64_t v\d+ = \(this->point_array\.count - 1\); \(v\d+ > 0\); \(v\d+--\)\)', t) is not None and '(this->point_array.items[0] - this->point_array.items[(this->point_array.count - 1)]).length()' in t
     ctx.check(ok, 'R-SHAPE', 'Polygon::perimeter/closed', p.loc(), 'count-1 consecutive edges plus the closing edge from the last to the first vertex')
